@@ -14,6 +14,7 @@ import Dippy.Generated.Tables
 import Dippy.Generated.Hook
 import Dippy.Model.Wrappers
 import Dippy.Model.ProcState
+import Dippy.Model.Statusline
 
 open Lean Dippy
 
@@ -452,6 +453,16 @@ def handle (j : Json) : R Json := do
   | "statefacts" =>
     return Json.mkObj [("handlerCacheSize", Json.num Generated.handlerCacheSize),
       ("mutableState", Json.arr (Generated.mutableState.map fun t => Json.arr #[Json.str t.1, Json.str t.2.1, Json.str t.2.2]).toArray)]
+  | "sl_cachename" =>
+    -- sid: {"str": s} | "falsy" | "truthy"
+    let sidJ := j.getObjValD "sid"
+    let sid : SL.Sid := match sidJ.getObjVal? "str" with
+      | .ok v => .str ((v.getStr?).toOption.getD "").toList
+      | .error _ => if sidJ == Json.str "falsy" then .falsyOther else .truthyOther
+    match SL.cachePath sid with
+    | some n => return Json.str (String.ofList n)
+    | none => return Json.null
+  | "sl_collapse" => return Json.str (String.ofList (SL.collapse (← str j "s").toList))
   | "bashquote" => return Json.str (bashQuote (← str j "s"))
   | "bashjoin" => return Json.str (bashJoin (← strList (j.getObjValD "tokens")))
   | "shellwords" =>
